@@ -136,7 +136,9 @@ def run(tier, seed, replay=None):
                  + ileave.cases("subject", tier, rng, "is", only=lambda setup, threads: any("unsub" in t for t in threads))
                  + ileave2.cases(tier, rng, only_unsub=True)
                  + tchain.cases(tier, rng)
-                 + [("x1", "(case x1 unsub_race %d)" % (10 if tier == "quick" else 60), {"kind": "threads", "op": "subscribe_on", "how": "pool"})])
+                 + [("x1", "(case x1 unsub_race %d)" % (10 if tier == "quick" else 60), {"kind": "threads", "op": "subscribe_on", "how": "pool"}),
+                    # a guard dropped because its scope is left by a panic
+                    ("x2", "(case x2 guard_unwind)", {"kind": "guard", "op": "subject", "how": "unwinding"})])
     res = correspond(rep, "C02", cases, "C02 (silence after unsubscribe: timed_ok / cut specifications / silent_after_unsub)")
     xcheck.cross_check(rep, "C02", cases, res, 40 if tier == "quick" else 400)
     if not replay:
